@@ -377,6 +377,9 @@ func genC02(g *Gen, c08 bool) {
 		{Root: map[string]interface{}{"x": "${s.inner}"}, Envs: []map[string]interface{}{{"s": "${u}", "v": "env1"}, {"u": map[string]interface{}{"inner": "${v}"}, "v": "env2"}}},
 		{Root: map[string]interface{}{"x": "${s.inner}", "v": "own"}, Envs: []map[string]interface{}{{"u": map[string]interface{}{"inner": "${v}"}, "v": "env2"}, {"s": "${u}", "v": "env1"}}},
 		{Root: map[string]interface{}{"s": "${u}", "x": "${s.inner}", "v": "own"}, Envs: []map[string]interface{}{{"u": map[string]interface{}{"inner": "${v}"}, "v": "env2"}}},
+		// the path of a reference runs into a value that is no object: the name is not found in the tree, a resolver may know it
+		{Root: map[string]interface{}{"a": uint64(5), "out": "${a.b.c}", "o2": "x${a.b.c}", "o3": "${a.b.c:dflt}"}, Resolvers: []resolverTable{{"a.b.c": {"from the resolver", 0}}}},
+		{Root: map[string]interface{}{"out": "${a.b.c}"}, Envs: []map[string]interface{}{{"a": true}}, Resolvers: []resolverTable{{"a.b.c": {"r", 0}}}},
 		// a path that walks twice through the same reference, two fields and two list entries reaching one variable: no cycles
 		{Root: map[string]interface{}{"p": "${ns}", "ns": map[string]interface{}{"q": "${p.r}", "r": "v"}}},
 		{Root: map[string]interface{}{"a": "${n}", "x": "${n}", "n": "${m}", "m": "v", "l": []interface{}{"${n}", "${n}"}}},
@@ -468,7 +471,7 @@ func genC02(g *Gen, c08 bool) {
 		nres := r.Intn(3)
 		for k := 0; k < nres; k++ {
 			t := resolverTable{}
-			for _, n := range []string{"r1", "r2", "e1", "b", "zz"} {
+			for _, n := range []string{"r1", "r2", "e1", "b", "zz", "n.x.k", "a.b.c", "n.x"} {
 				if r.P(1, 2) {
 					v := []string{"rv", "12", "", "[1,2]", "{k: v}", "a,b", "${a}", " sp "}[r.Intn(8)]
 					t[n] = struct {
